@@ -206,6 +206,8 @@ class Alias(Profile):
         ops = [{"op": "construct"}]
         n = rng.randint(2, cfg["max_steps"])
         parties, exports = ["g0"], []
+        avoid = cfg.get("avoid") or {}
+        editable = []  # exports the generator may edit (avoid mode leaves known-finding triggers alone)
         for _ in range(n):
             r = rng.random()
             if r < 0.2 and len(parties) < 3:
@@ -220,9 +222,13 @@ class Alias(Profile):
                 e["as"] = h
                 ops.append(e)
                 exports.append(h)
+                if not (avoid.get("edit_cached_gdf") and e["what"] == "gdf" and e.get("cache", True)):
+                    editable.append(h)
+            elif editable:
+                ops.append({"op": "edit", "x": rng.choice(editable), "k": rng.randrange(1000)})
             else:
-                ops.append({"op": "edit", "x": rng.choice(exports), "k": rng.randrange(1000)})
-        return {"sources": {"g0": src}, "ops": ops}
+                ops.append(dict(self.gen_mutator(rng), op="mutate", on=rng.choice(parties)))
+        return {"sources": {"g0": src}, "ops": ops, "avoid": bool(avoid)}
 
     def simplify(self, op):
         if op["op"] == "mutate" and op["kind"] == "setter" and op["name"] != "node_lat":
@@ -683,7 +689,10 @@ class Alias(Profile):
         W.fire("caller_edit")
         W.cov["nontrivial"] = True
         W.cov["judged"] += 1
-        what = f"edit[{x['op']['what']}:{kind}]"
+        xw = x["op"]["what"]
+        if xw == "gdf":
+            xw = "gdf(cached)" if x["op"].get("cache", True) else "gdf(uncached)"
+        what = f"edit[{xw}:{kind}]"
         vs = self.check_others(W, i, None, what)
         if not vs:
             vs = self.check_exports_untouched(W, i, what)
